@@ -531,8 +531,13 @@ def main(argv=None):
     try:
         validate_evidence(ev)
     except Exception as e:
-        print('HARNESS-ERROR: evidence does not validate:', e)
-        return 2
+        if not lines:
+            print('HARNESS-ERROR: evidence does not validate:', e)
+            return 2
+        # a run that stopped early on a violation may have explored too
+        # little for valid evidence; the violation is still the verdict
+        print('note: evidence of this violating run does not validate '
+              '(stopped early)')
     evdir = os.path.join(os.environ.get('VF_OUT', VERIF), 'evidence')
     os.makedirs(evdir, exist_ok=True)
     with open(os.path.join(evdir, prop_id + '.json'), 'w') as f:
